@@ -219,11 +219,13 @@ pub fn streams(tier: &str) -> Vec<StreamGen> {
         };
                 v.push(stream_gen(&format!("ipfix-set-mixes<={}", maxlen), nl * 2, move |i| Some(mk(i))));
     }
-    // 6. header values
+    // 6. header values: every header field x threshold menu
     {
+        let menu: Vec<u32> = values(Class::Unsigned, 4).into_iter().map(|x| u32::from_be_bytes([x[0], x[1], x[2], x[3]])).collect();
+        let nm = menu.len() as u64;
         let mk = move |i: u64| -> Vec<Vec<u8>> {
-            let d = digits(i, &[3, 5]);
-            let x = [0u32, 1, 0x8000_0000, u32::MAX, 0xa5c3_96e1][d[1] as usize];
+            let d = digits(i, &[3, nm]);
+            let x = menu[d[1] as usize];
             let f = vec![fs(1, 4)];
             let mut m = IpfixMsg::new(vec![IpfixSet::Tpl(vec![IpfixTpl { id: 256, fields: f.clone() }], 0), IpfixSet::Data(256, body_for(&f, 1, 0, None))]);
             match d[0] {
@@ -233,7 +235,21 @@ pub fn streams(tier: &str) -> Vec<StreamGen> {
             }
             vec![ipfix_message(&m)]
         };
-                v.push(stream_gen("ipfix-header-values", 15, move |i| Some(mk(i))));
+        v.push(stream_gen("ipfix-header-values", 3 * nm, move |i| Some(mk(i))));
+    }
+    // 7. wide templates: 10, 11, 12, 16, 33, 100, 257 (thorough 1000, 4000) fields cycling through the fixed-length representatives
+    {
+        let reps: Vec<FieldSpec> = ipfix_reps().into_iter().filter(|f| f.len > 0 && f.len != 65535).collect();
+        let widths: Vec<usize> = if thorough { vec![10, 11, 12, 16, 33, 100, 257, 1000, 4000] } else { vec![10, 11, 12, 16, 33, 100, 257] };
+        let nw = widths.len() as u64;
+        let mk = move |i: u64| -> Vec<Vec<u8>> {
+            let d = digits(i, &[nw, 2, 3]);
+            let n = widths[d[0] as usize];
+            let fields: Vec<FieldSpec> = (0..n).map(|k| reps[(k * 7 + k / reps.len()) % reps.len()]).collect();
+            let body = body_for(&fields, d[1] as usize + 1, 0, None);
+            deliver(IpfixSet::Tpl(vec![IpfixTpl { id: 256, fields }], 0), IpfixSet::Data(256, body), d[2])
+        };
+        v.push(stream_gen("ipfix-wide-templates", nw * 6, move |i| Some(mk(i))));
     }
     v
 }
